@@ -229,7 +229,7 @@ func (l *ledger) dump(h common.Hash) string {
 		if v.deposit != "" {
 			dep = v.deposit
 		}
-		sb.WriteString(fmt.Sprintf("%d:%s,%s,%d,%d,%s,%d,%s ", l.label(a), v.bal.String(), v.votes.String(), l.label(v.voteFor), v.isCand, dep, l.label(v.income), l.profOf(h, a)))
+		sb.WriteString(fmt.Sprintf("%d:%s,%s,%d,%d,%s,%d,%s,%s ", l.label(a), v.bal.String(), v.votes.String(), l.label(v.voteFor), v.isCand, dep, l.label(v.income), l.profOf(h, a), l.paidField(h, a))) // c05_profile.go: the other profile keys, the deposit PAID by construction
 	}
 	return sb.String()
 }
